@@ -86,4 +86,48 @@ theorem referenced_is_bound {cfg : Cfg} {f : FileS} (hH : HintsOk f) (hS : StdOk
     isReg (renderFileRaw cfg f body).2 p = true :=
   (file_imports_exact cfg f body (good_of_hintsOk hH hS) p).2 hv hl
 
+/-- COMPOSITE: after rendering a File, for every referenced non-local path p: the table has
+    exactly one entry for p, its name d.name is what every reference to p prints, it is a real
+    name (never "", never `_`), and the import block's spec for p is `d.name "p"` when d is an
+    alias and `"p"` when it is not — in which case d.name is the user's ImportName or the
+    standard-library table's name.  (A dot import is the alias ".": references print bare.) -/
+theorem qualifier_is_bound {cfg : Cfg} {f : FileS} (hH : HintsOk f) (hS : StdOk cfg) (hI : Inv cfg f)
+    (hI1 : Inv cfg (renderFileRaw cfg f body).2) (p : Str)
+    (hv : visitsItems f.np body p = true) (hl : isLocal f p = false) (hC : p ≠ b!"C") :
+    let f1 := (renderFileRaw cfg f body).2
+    let d := lookupImp f1 p
+    (p, d) ∈ f1.imports ∧ d.name ≠ [] ∧ d.name ≠ b!"_" ∧
+    renderP cfg (envOf f1) none (.tok .pkg p) = d.name ∧
+    (∀ e, (p, e) ∈ f1.imports → e = d) ∧
+    importSpec cfg.isPrint (p, d) =
+      (if d.alias then d.name ++ b!" " ++ Quote.quote cfg.isPrint p else Quote.quote cfg.isPrint p) := by
+  have hreg := referenced_is_bound hH hS body p hv hl
+  have hn := (isReg_iff _ p).mp hreg
+  have hmem := lookupImp_mem hn.1
+  refine ⟨hmem, hn.1, hn.2, rfl, ?_, spec_binds_name cfg.isPrint p _ hC⟩
+  intro e he
+  -- one entry per path
+  have nd := hI1.keysDistinct
+  have : AList.lookup (renderFileRaw cfg f body).2.imports p = some e := lookup_of_mem_nodup nd he
+  simp [lookupImp, this]
+where
+  lookup_of_mem_nodup {β} {m : List (Str × β)} {k : Str} {v : β} (nd : (m.map (·.1)).Nodup) (h : (k, v) ∈ m) :
+      AList.lookup m k = some v := by
+    induction m with
+    | nil => cases h
+    | cons e rest ih =>
+      obtain ⟨k', v'⟩ := e
+      simp only [List.map_cons, List.nodup_cons] at nd
+      simp only [List.mem_cons] at h
+      rcases h with h | h
+      · cases h; simp [AList.lookup]
+      · have hne : (k' == k) = false := by
+          cases hk : (k' == k)
+          · rfl
+          · have : k' = k := by simpa using hk
+            subst this
+            exact absurd (List.mem_map.mpr ⟨(k', v), h, rfl⟩) nd.1
+        simp only [AList.lookup, hne, Bool.false_eq_true, if_false]
+        exact ih nd.2 h
+
 end C03
